@@ -86,7 +86,7 @@ def run(tier, seed, replay=None):
         return chk.finish()
     walk_rows = vlib.read_ndjson(p2)
     p3 = os.path.join(work, "pass.ndjson")
-    npass, maxrec = (60, 250) if tier == "quick" else (2000, 5000)
+    npass, maxrec = (60, 380) if tier == "quick" else (2000, 5000)
     rc, out = vlib.run([os.path.join(bdir, "refine_driver"), "c01", str(npass), str(seed), p3, str(maxrec), "60" if tier == "quick" else "150"], timeout=3000)
     if rc != 0:
         chk.violation("driver-crash:pass", "refine_driver terminated with status %d\n%s" % (rc, out[-600:]))
